@@ -28,6 +28,9 @@ type Entry struct {
 	Data string `json:"data,omitempty"`
 	Link string `json:"link,omitempty"`
 	Mode int64  `json:"mode,omitempty"`
+	// Implied (models only, never written to a tar stream): a directory that exists because
+	// something below it does; it defines no metadata.
+	Implied bool `json:"-"`
 }
 
 func (e Entry) String() string {
@@ -240,6 +243,9 @@ type MNode struct {
 	Data   string
 	Mode   int64
 	Target string // symlink target as written in the layer
+	// Explicit: a directory that some layer named in an entry of its own (its mode is then
+	// defined); false for directories that only exist as implied parents of deeper entries.
+	Explicit bool
 }
 
 // Model is path ("a/b", no leading slash; "" is the root) -> node.
@@ -331,11 +337,17 @@ func (m Model) Apply(entries []Entry) Model {
 		old, had := out[name]
 		switch e.Kind {
 		case "dir":
-			if had && old.Kind == "dir" {
+			if e.Implied {
+				if !had || old.Kind != "dir" {
+					out.removeSubtree(name)
+					out[name] = &MNode{Kind: "dir", Mode: 0o755}
+				}
+			} else if had && old.Kind == "dir" {
 				old.Mode = e.Mode
+				old.Explicit = true
 			} else {
 				out.removeSubtree(name)
-				out[name] = &MNode{Kind: "dir", Mode: e.Mode}
+				out[name] = &MNode{Kind: "dir", Mode: e.Mode, Explicit: true}
 			}
 		case "symlink":
 			out.removeSubtree(name)
